@@ -341,6 +341,15 @@ Theorem C15_set_frame : forall sha enc (f : fs) u e bd,
 Proof. exact set_frame. Qed.
 Print Assumptions C15_set_frame.
 
+(* "never share or overwrite": any sequence of operations on other urls, from ANY
+   directory, leaves the file of u and every answer for u as they were *)
+Theorem C15_isolated_files : forall sha enc dec parse ops (f : fs) u,
+  (forall o, In o ops -> op_url o <> u /\ (sha (op_url o) = sha u -> op_url o = u)) ->
+  alookup (file_name sha u) (snd (run_ops sha enc dec parse f ops)) = alookup (file_name sha u) f /\
+  forall t, get sha dec parse (snd (run_ops sha enc dec parse f ops)) u t = get sha dec parse f u t.
+Proof. exact isolated_files. Qed.
+Print Assumptions C15_isolated_files.
+
 (* on disk: after the last Set of u that reached the file, the file of u holds
    exactly the encoding of the bytes handed to that Set (no decoder involved) *)
 Theorem C15_file_after_set : forall sha enc dec parse pre mid u e b d,
